@@ -777,9 +777,12 @@ def check_table(ctx, spec, s, kind, sess, extra):
         elif er is not None:
             rp = st["retry"]
             want_cls = sorted(api_core_class(c).__name__ for c in rp["codes"])
-            if sorted(er["exceptions"] or []) != want_cls and "OK" not in rp["codes"]:
+            # (`want_cls` contains the base class GoogleAPICallError exactly when `OK` is listed: that is what api-core's table gives)
+            if sorted(er["exceptions"] or []) != want_cls:
                 ctx.fail("emitted-retry-codes", f"{s['name']}.{name} ({kind}): predicate {er['exceptions']} for codes {rp['codes']}", payload)
-            if "OK" in rp["codes"] and "GoogleAPICallError" in (er["exceptions"] or []):
+            elif "OK" in rp["codes"] and "GoogleAPICallError" in (er["exceptions"] or []):
+                # known finding, keyed by its trigger (the ENTRY lists `OK`) and its symptom (the predicate is exactly the classes of the
+                # listed codes, the base class among them); any other deviation of the predicate is `emitted-retry-codes` above
                 ctx.fail("ok-code-retries-every-error", f"{s['name']}.{name} ({kind}): `OK` in retryableStatusCodes puts the base class GoogleAPICallError into the predicate: every error is retried", payload)
             for k in ("initial", "maximum", "multiplier"):
                 if er[k] != float(rp[k]):
@@ -898,7 +901,9 @@ def check_calls(ctx, spec, s, asy, jitter, kept, sess, rest=False):
             T = None if ck["timeout"] == "none" else num_fraction(ck["timeout"])
         else:
             T = st["timeout"]
-        ok_listed = bool(rp) and "GoogleAPICallError" in rp["classes"]      # `OK` among the codes: known finding
+        # known finding `ok-code-retries-every-error` — trigger, decided from the INPUT: the entry's default retry applies to this call
+        # (no explicit retry= / retry=None) and the entry lists `OK` among its retryableStatusCodes
+        ok_listed = not isinstance(ck.get("retry"), dict) and ck.get("retry") != "none" and bool(st["retry"]) and "OK" in st["retry"]["codes"]
         # how many attempts does the statement allow: up to and including the first reply that is OK or not retryable
         k = 0
         for c in p["replies"]:
@@ -907,7 +912,12 @@ def check_calls(ctx, spec, s, asy, jitter, kept, sess, rest=False):
                 break
         last = p["replies"][k - 1]
         key_prefix = "explicit-" if ck else ""
-        if ok_listed and (n != k or raised != (None if last == "OK" else api_core_class(last).__name__)):
+        # … and its symptom: an UNLISTED error was served and was retried, the call going on exactly as if every error were retryable —
+        # up to the first OK reply, or until the overall deadline ends it with RetryError.  Anything else (fewer attempts, a wrong
+        # surfaced error, more attempts than that) gets the ordinary keys below and is a violation.
+        k_all = (p["replies"].index("OK") if "OK" in p["replies"] else len(p["replies"])) + 1     # (the server answers OK once its script is used up)
+        if ok_listed and last != "OK" and n > k and ((n == k_all and raised is None) or
+                                                       (n < k_all and raised == "RetryError" and rp["deadline"] is not None)):
             ctx.fail("ok-code-retries-every-error", f"{tag}: {n} attempts (raised={raised}); `OK` is listed, so the unlisted error {last} is retried", payload)
         elif n != k:
             if raised == "RetryError" and rp is not None and rp["deadline"] is not None and n < k:
